@@ -5391,6 +5391,8 @@ class Arc(Curve):
         self.start = start
         end = Point(end)
         self.end = end
+        rx = abs(rx)
+        ry = abs(ry)
         if start == end or rx == 0 or ry == 0:
             # If start is equal to end, there are infinite number of circles so these void out.
             # We still permit this kind of arc, but SVG parameterization cannot be used to achieve it.
